@@ -47,6 +47,10 @@ EXPLANATION += " Added: (R5, R6 rewritten) the statements that store the quadrup
 TECHNIQUE += '; record loops and small readers evaluated as a whole on model files (four-index records, VASP header and grid, GRO frame)'
 EXPLANATION += ' Changed / added: (R3) the two record loops that call set_four_index_element are interpreted on model records ((1 2|3 4) lands on (0, 2, 1, 3) and its seven partners only) instead of matching `int(field) - 1` statements; (R20) the VASP grid reader is interpreted as a whole on a model file; (R22) the VASP header reader on 20 model headers (scaling factor, element expansion, selective dynamics, Direct / Cartesian / Kartesian); (R23) the GRO frame reader on model frames (time positive / negative / with exponent / absent, residue and atom columns, positions, velocities, box).'
 # --- end metadata batch 8
+# --- metadata added after the round-2 refactoring twins
+TECHNIQUE += '; whole evaluation of the VASP grid reader for the step vectors'
+EXPLANATION += ' R10: every read of the recorded Molden tags (a membership test, or the set handed to a helper) must stand where no tag can be recorded any more. The VASP grid step vectors (also C04-R5) are read off the cube returned by the whole grid reader on a skew model cell.'
+# --- end metadata round-2 twins
 
 
 def _load_spec():
